@@ -275,6 +275,22 @@ class MonC01(Monitor):
             d = int(self.pulse.duration)
             dur_ok = d >= ch.min_duration and (ch.max_duration is None or d <= ch.max_duration)
             margin = limit_margin(self.pulse, ch, self.detmap)
+            # a pulse that has to be lengthened is scheduled with other samples: "inside every limit"
+            # is required of the pulse as given AND as lengthened (the two clauses of the property
+            # cannot both hold otherwise; the safety clause on the scheduled pulse prevails, F37)
+            d2 = adjusted_duration(ch, d)
+            if ok and d2 is not None and d2 != d:
+                try:
+                    with warnings.catch_warnings():
+                        warnings.simplefilter("ignore")
+                        adj = Pulse(self.pulse.amplitude.change_duration(d2), self.pulse.detuning.change_duration(d2),
+                                    self.pulse.phase, self.pulse.post_phase_shift)
+                    ok2, which2 = within_limits(adj, ch, self.detmap)
+                    if not ok2:
+                        ok, which = False, which2
+                    margin = min(margin, limit_margin(adj, ch, self.detmap))
+                except NotImplementedError:
+                    pass
             if st.real[0] == "err" and st.real[1] in LIMIT_ERRS - {"overMaxSeq", "notResizable", "durTooShort", "durTooLong"}:
                 if ok and margin > 1e-9:
                     fails.append(self.F("spurious-limit-rejection", f"pulse within limits refused with {st.real[1]}", op=k))
@@ -706,10 +722,49 @@ class MonC03(Monitor):
 
     prop = "C03"
 
+    def begin(self, ls):
+        # independent shadow of the phase-shift barriers (never reads the implementation's reference
+        # objects): last use of every (basis, atom) = latest end of a user pulse on it, and the time of
+        # its latest phase shift = its last use when the shift was made
+        self.lu = {}
+        self.bar = {}
+        self.sh_ok = True
+
+    def shadow_update(self, ls, st):
+        op, k = st.op, st.op["k"]
+        if op.get("corr"):
+            self.sh_ok = False          # drift corrections shift by amounts the harness does not recompute
+        if st.real[0] != "ok" or not self.sh_ok:
+            return
+        seq = ls.real.seq
+        if k in ("add", "addeom", "adddmm"):
+            sch = seq._schedule.get(real_name(op["ch"]))
+            if sch is None or not sch.slots or not isinstance(sch.slots[-1].type, Pulse):
+                return
+            sl = sch.slots[-1]
+            b = sch.channel_obj.basis
+            for q in sl.targets:
+                self.lu[(b, q)] = max(self.lu.get((b, q), 0), int(sl.tf))
+            if float(sl.type.post_phase_shift) != 0.0:
+                for q in sl.targets:
+                    self.bar[(b, q)] = max(self.bar.get((b, q), 0), self.lu[(b, q)])
+        elif k == "shift":
+            b = op["basis"]
+            qs = [ls.dev.qids[i] for i in op["qs"] if i < ls.dev.nq] if op["qs"] else list(ls.dev.qids)
+            for q in qs:
+                self.bar[(b, q)] = max(self.bar.get((b, q), 0), self.lu.get((b, q), 0))
+
     def pre(self, ls, op):
         self.p = PreAux(ls, op) if op["k"] in ("add", "addeom", "adddmm", "align") else None
+        self.bar_pre = dict(self.bar) if self.sh_ok else None
 
     def post(self, ls, st):
+        try:
+            return self.judge(ls, st)
+        finally:
+            self.shadow_update(ls, st)
+
+    def judge(self, ls, st):
         fails = []
         op = st.op
         k = op["k"]
@@ -747,6 +802,12 @@ class MonC03(Monitor):
         proto = op["proto"]
         basis = ch.basis
         B = max([self.p.refs[basis][q][0][-1] for q in my_targets] + [0]) if basis in self.p.refs else 0
+        if self.bar_pre is not None:
+            Bs = max([self.bar_pre.get((basis, q), 0) for q in my_targets] + [0])
+            if Bs != B:
+                fails.append(self.F("barrier", f"phase-shift barrier of the targets is {B} in the sequence but the "
+                                    f"latest phase shift of a target atom was made at {Bs}", op=k))
+                B = Bs
         # ends of the most recent relevant pulse of every other channel (fall in that channel's current mode)
         ends = []
         for oname, a in self.p.aux.items():
